@@ -597,31 +597,45 @@ Fixpoint advance (fuel : nat) (c : cfg) (s : sys) (T : N) : sys :=
 
 (* at time T the network delivers the k-th datagram emitted by the client (to the server) or by
    the server (to the client); a second delivery of the same datagram is inert *)
-Inductive move := Deliver (from_client : bool) (k : N) (T : N).
+Inductive move :=
+| Deliver (from_client : bool) (k : N) (T : N)
+| Inject (to_client : bool) (d : dgram) (T : N).   (* a datagram no endpoint sent (forged, unprotected) *)
 
 Definition nmem (k : N) (l : list N) : bool := existsb (N.eqb k) l.
 
 Definition do_move (c : cfg) (s0 : sys) (m : move) : option sys :=
-  let '(Deliver fc k T) := m in
-  let s := advance 4096 c s0 T in
-  if fc then
-    match nth_error (s_cout s) (N.to_nat k) with
-    | None => None
-    | Some (_, d) =>
-        if nmem k (s_cseen s) then Some s else
-        let '(e', out) := on_datagram c (s_s s) d T in
-        Some {| s_c := s_c s; s_s := e'; s_cout := s_cout s; s_sout := s_sout s ++ stamp T out;
-                s_cseen := k :: s_cseen s; s_sseen := s_sseen s |}
-    end
-  else
-    match nth_error (s_sout s) (N.to_nat k) with
-    | None => None
-    | Some (_, d) =>
-        if nmem k (s_sseen s) then Some s else
+  match m with
+  | Deliver fc k T =>
+      let s := advance 4096 c s0 T in
+      if fc then
+        match nth_error (s_cout s) (N.to_nat k) with
+        | None => None
+        | Some (_, d) =>
+            if nmem k (s_cseen s) then Some s else
+            let '(e', out) := on_datagram c (s_s s) d T in
+            Some {| s_c := s_c s; s_s := e'; s_cout := s_cout s; s_sout := s_sout s ++ stamp T out;
+                    s_cseen := k :: s_cseen s; s_sseen := s_sseen s |}
+        end
+      else
+        match nth_error (s_sout s) (N.to_nat k) with
+        | None => None
+        | Some (_, d) =>
+            if nmem k (s_sseen s) then Some s else
+            let '(e', out) := on_datagram c (s_c s) d T in
+            Some {| s_c := e'; s_s := s_s s; s_cout := s_cout s ++ stamp T out; s_sout := s_sout s;
+                    s_cseen := s_cseen s; s_sseen := k :: s_sseen s |}
+        end
+  | Inject tc d T =>
+      let s := advance 4096 c s0 T in
+      if tc then
         let '(e', out) := on_datagram c (s_c s) d T in
         Some {| s_c := e'; s_s := s_s s; s_cout := s_cout s ++ stamp T out; s_sout := s_sout s;
-                s_cseen := s_cseen s; s_sseen := k :: s_sseen s |}
-    end.
+                s_cseen := s_cseen s; s_sseen := s_sseen s |}
+      else
+        let '(e', out) := on_datagram c (s_s s) d T in
+        Some {| s_c := s_c s; s_s := e'; s_cout := s_cout s; s_sout := s_sout s ++ stamp T out;
+                s_cseen := s_cseen s; s_sseen := s_sseen s |}
+  end.
 
 Fixpoint run_moves (c : cfg) (s : sys) (ms : list move) : option sys :=
   match ms with
